@@ -41,6 +41,26 @@ def run_case(desc):
     stock = sg.build_stock(cfg)
     guard_conditioning(cfg, stock)
     stock.compute()
+    out = check_computed(desc, cfg, stock, "")
+    if cfg.get("reprm") and cfg["cls"] != "simple":
+        # same object, new lifetime parameters, recompute: the balance must hold again
+        cfg2 = dict(cfg, lt=dict(cfg["lt"], prms=cfg["reprm"]))
+        probe = sg.build_stock(cfg2)
+        try:
+            guard_conditioning(cfg2, probe)
+        except Discard:
+            return out
+        U = sg.universe_of(cfg)
+        if cfg["cls"].startswith("sdsm"):
+            stock.stock.values[...] = sg.driver_array(cfg).values
+        stock.lifetime_model.set_prms(**{k: sg.build_prm(U, p) for k, p in cfg["reprm"].items()})
+        stock.compute()
+        check_computed(desc, cfg2, stock, "after-set_prms-")
+        out["classes"].append("recomputed-after-set_prms")
+    return out
+
+
+def check_computed(desc, cfg, stock, pre):
     o = observe(stock)
     dt = np.array(sg.documented_dt(cfg["grid"]))
     n = len(dt)
@@ -48,24 +68,24 @@ def run_case(desc):
     dtb = dt.reshape(shape1)
     require(np.all(np.isfinite(o["stock"])) and np.all(np.isfinite(o["inflow"])) and np.all(np.isfinite(o["outflow"])), "non-finite-result", cfg["cls"])
     scale = float(np.max(np.abs(o["stock"])) + np.max(dtb * (np.abs(o["inflow"]) + np.abs(o["outflow"]))))
-    tol = 1e-9 * max(1.0, scale)
+    tol = 1e-9 * scale  # relative to the magnitudes involved: flows may be in any unit
     prev = np.concatenate([np.zeros_like(o["stock"][:1]), o["stock"][:-1]], axis=0)
     resid = o["stock"] - prev - dtb * (o["inflow"] - o["outflow"])
     worst = float(np.max(np.abs(resid)))
     gk = sg.grid_kind(cfg["grid"])
     kind = "simple" if cfg["cls"] == "simple" else "dsm"
-    require(worst <= tol, f"mass-balance-{kind}-{gk}", f"max |stock(t)-stock(t-1)-dt*(in-out)| = {worst:.3g} (tol {tol:.2g}); grid {cfg['grid']}")
+    require(worst <= tol, f"{pre}mass-balance-{kind}-{gk}", f"max |stock(t)-stock(t-1)-dt*(in-out)| = {worst:.3g} (tol {tol:.2g}); grid {cfg['grid']}")
     # cumulative identity
     cum = np.cumsum(dtb * (o["inflow"] - o["outflow"]), axis=0)
-    require(float(np.max(np.abs(cum - o["stock"]))) <= tol * n, f"mass-balance-{kind}-{gk}", "cumulative net inflow != stock")
+    require(float(np.max(np.abs(cum - o["stock"]))) <= tol * n, f"{pre}mass-balance-{kind}-{gk}", "cumulative net inflow != stock")
     # the library's own self check
     try:
         stock.check_stock_balance()
     except Exception as e:
-        raise Violation(f"check_stock_balance-rejects-correct-stock-{gk}", f"{type(e).__name__}: {str(e)[:120]}; grid {cfg['grid']}")
+        raise Violation(f"{pre}check_stock_balance-rejects-correct-stock-{gk}", f"{type(e).__name__}: {str(e)[:120]}; grid {cfg['grid']}")
     bal = np.asarray(stock.get_stock_balance(), dtype=float)
-    btol = 1e-8 * max(1.0, scale) / min(1.0, float(np.min(dt)))
-    require(float(np.max(np.abs(bal))) <= btol, f"get_stock_balance-nonzero-{gk}", f"max |balance| = {float(np.max(np.abs(bal))):.3g}; grid {cfg['grid']}")
+    btol = 1e-8 * scale / min(1.0, float(np.min(dt)))
+    require(float(np.max(np.abs(bal))) <= btol, f"{pre}get_stock_balance-nonzero-{gk}", f"max |balance| = {float(np.max(np.abs(bal))):.3g}; grid {cfg['grid']}")
     # perturbed stock must be rejected
     idx = np.unravel_index(desc["perturb"] % o["stock"].size, o["stock"].shape)
     stock.stock.values[idx] += 2 * float(np.max(dt)) + 2
@@ -75,7 +95,7 @@ def run_case(desc):
         pass
     else:
         raise Violation("check_stock_balance-accepts-perturbed-stock", f"entry {idx} raised by {2 * float(np.max(dt)) + 2}")
-    cl = classes_of(cfg)
+    cl = classes_of(cfg) + [f"scale:{cfg.get('scale', 1.0):g}"]
     nontrivial = gk != "unit" or (cfg["cls"] != "simple" and n >= 2 and float(np.max(np.abs(o["outflow"]))) > 0)
     return {"nontrivial": nontrivial, "classes": cl}
 
